@@ -142,7 +142,20 @@ Judge(e) ==
            Tag("union.", MergeContract(e.u, e.x, e.y, Update)) \cup wf("Union", e.u)
            \cup Tag("add.", MergeContract(e.ad, e.x, e.y, Augment)) \cup wf("Add", e.ad)
            \cup Tag("intersect.", IntersectContract(e.ix, e.x, e.y)) \cup wf("Intersect", e.ix)
+           \cup UNION {(IF HasNode(e.x, c.at) # (c.err = "") THEN {"relatelist.error"} ELSE {})
+                       \cup Tag("relatelist.", RelateListContract(c.r, e.x, e.y, c.at, 5))
+                       \cup (IF ~WellFormed(e.x) \/ ~WellFormed(e.y) THEN {} ELSE Tag("RelateList.", WFClause(c.r))) : c \in Rng(e.rl)}
            \cup (IF e.same /\ e.argsame THEN {} ELSE {"frame.Query.operand"})
+       [] e.op = "EditAll" ->
+           \* stateless: one list of the exported universe through every removal and every relating of a node
+           UNION {LET D == Rng(c.ids) IN
+                    (IF Same(c.r, RemoveF(e.x, D)) /\ Len(c.r.nodes) = Cardinality(NodeSet(c.r)) THEN {}
+                     ELSE IF Same(c.r, RemoveKeepRootsF(e.x, D)) THEN {"remove.roots-kept"} ELSE {"remove.exact"})
+                    \cup (IF ~WellFormed(e.x) THEN {}
+                          ELSE Tag("Remove.", WFClause(c.r)) \cup (IF Normalised(c.r) THEN {} ELSE {"Remove.normalised"})) : c \in Rng(e.rm)}
+           \cup UNION {(IF HasNode(e.x, c.at) # (c.err = "") THEN {"relatenode.error"} ELSE {})
+                       \cup Tag("relatenode.", RelateNodeContract(c.r, e.x, c.n, c.at, 5))
+                       \cup (IF ~WellFormed(e.x) THEN {} ELSE Tag("RelateNode.", WFClause(c.r))) : c \in Rng(e.rn)}
        [] e.op = "ExtractAll" ->
            \* stateless: one (graph, start) of the exported universe through NodeGraph, NodeSiblings, NodeDescendants(1..3)
            LET g == e.g s == e.id
